@@ -168,6 +168,7 @@ class Executor(object):
         self._hasq_cache = {}
         self.feas_quantified = True
         self.modular_loops = False
+        self.opaque_nondet = False
         self._loops_done = set()
         self.stats = dict(feasibility_checks=0, paths=0)
 
@@ -566,6 +567,9 @@ class Executor(object):
         """Truth value of a python object that may be symbolic: a symbolic-length list is true iff its length is positive."""
         if isinstance(v, Ref) and st.obj(v).kind == "symlist":
             return st.obj(v).fields["len"] > 0
+        if isinstance(v, Opaque) and self.opaque_nondet:
+            # a condition computed from values the executor does not model: either outcome (the same one whenever it is tested again)
+            return z3.Bool("nondet_" + v.tag)
         return v
 
     def truth(self, v, st):
@@ -992,8 +996,14 @@ class Executor(object):
         if not ctx.spec:
             calls = st.ghost.setdefault("calls:" + f.name, [])
             calls.append(tuple(args))
+            st.ghost.setdefault("vals:" + f.name, []).append(val)
         out.append((st, val))
         return out
+
+    def linked(self, st, fname, arg, val):
+        """ghost: `val` is the very object an (unmodelled) call fname(arg) returned on this path"""
+        calls, vals = st.ghost.get("calls:" + fname, []), st.ghost.get("vals:" + fname, [])
+        return any(len(a) >= 1 and a[0] is arg and v is val for a, v in zip(calls, vals))
 
     def call_closure(self, f, args, kwargs, st, ctx, node):
         if ctx.depth > self.MAX_DEPTH:
@@ -1335,7 +1345,10 @@ class Executor(object):
             st.env[tgt.id] = v
             return [(st, None)]
         if isinstance(tgt, (ast.Tuple, ast.List)):
-            items = self.iterate(v, st, ctx) if not isinstance(v, tuple) else list(v)
+            if isinstance(v, Opaque) and self.opaque_nondet and not any(isinstance(e, ast.Starred) for e in tgt.elts):
+                items = [Opaque(v.tag.split("!")[0]) for _ in tgt.elts]      # components of an unmodelled value: unmodelled values
+            else:
+                items = self.iterate(v, st, ctx) if not isinstance(v, tuple) else list(v)
             star = [i for i, e in enumerate(tgt.elts) if isinstance(e, ast.Starred)]
             if star:
                 i = star[0]
@@ -1579,6 +1592,9 @@ class Executor(object):
     def s_For(self, node, st, ctx):
         k = self.loop_ordinal(node, ctx)
         out = []
+        spec0 = ctx.contract.loops.get(k) if ctx.contract and ctx.contract.loops else None
+        if spec0 is not None and spec0.get("cut"):
+            return self.symbolic_for(node, None, st, ctx, k, spec0)
         for s, itv in self.eval(node.iter, st, ctx):
             if isinstance(itv, Raised):
                 out.append((s, ("raise", itv.exc)))
@@ -1620,7 +1636,78 @@ class Executor(object):
         return out
 
     def symbolic_for(self, node, itv, st, ctx, k, spec):
-        raise Unsupported("symbolic for-loop at line %d" % node.lineno)
+        """`for x in range([start,] n)` with a symbolic bound, cut by an invariant.  Ghost `iter_index` = index the next iteration would
+        use (start <= iter_index <= max(start, n)); the loop variable keeps its last value after the loop (python semantics)."""
+        it = node.iter
+        if not (isinstance(it, ast.Call) and isinstance(it.func, ast.Name) and it.func.id == "range" and 1 <= len(it.args) <= 2 and not it.keywords):
+            raise Unsupported("symbolic for-loop over something other than range(n) at line %d" % node.lineno)
+        if not isinstance(node.target, ast.Name):
+            raise Unsupported("symbolic for-loop with a structured target at line %d" % node.lineno)
+        lineno = node.lineno
+        out = []
+        for s0, bounds in self.eval_list(list(it.args), st, ctx):
+            if isinstance(bounds, Raised):
+                out.append((s0, ("raise", bounds.exc)))
+                continue
+            start = to_z3(bounds[0]) if len(bounds) == 2 else z3.IntVal(0)
+            stop = to_z3(bounds[-1])
+            invs = spec.get("invariant", [])
+            s0.env["iter_index"] = start
+            self.prove_many(s0, ctx, [(self.eval_spec(inv, s0, ctx), "inv-init", "inv-init#loop%d.%d@L%d" % (k, i, lineno), lineno) for i, inv in enumerate(invs)])
+            spec["_links_init"] = {(fname, a_, v_): self.linked(s0, fname, s0.env.get(a_), s0.env.get(v_)) for (fname, a_, v_) in (spec.get("links") or [])}
+            mods = _modified_names(node.body + node.orelse) | {node.target.id} | set(spec.get("havoc", []))
+            for n in sorted(mods):
+                if n in s0.env:
+                    s0.env[n] = self.havoc_like(s0.env[n], n)
+            for path in sorted(_modified_attrs(node.body)):
+                self.havoc_attr_path(path, s0, ctx)
+            self.havoc_loop_frame(node.body + node.orelse, s0, ctx)
+            # names the body creates (unbound before the loop): at the head of a later iteration they hold what the previous one left
+            for n_, sort_ in (spec.get("defines") or {}).items():
+                if n_ not in s0.env:
+                    s0.env[n_] = self.fresh(sort_, n_)
+            idx = z3.Int(fresh_name("iter_index"))
+            s0.env["iter_index"] = idx
+            s0.assume(z3.And(idx >= start, z3.Or(idx <= stop, idx == start)))
+            # the loop variable holds the index of the last iteration that ran (or whatever it held before, if none did)
+            if node.target.id in s0.env and is_z3(s0.env[node.target.id]):
+                s0.assume(z3.Implies(idx > start, s0.env[node.target.id] == idx - 1))
+            for inv in invs:
+                s0.assume(to_bool(self.eval_spec(inv, s0, ctx)))
+            # identity invariants over unmodelled values, "val_var is fname(arg_var)": proved on entry, assumed at the head (ghost call log),
+            # proved again at the end of every iteration
+            links = spec.get("links") or []
+            for (fname, a_, v_) in links:
+                self.reg.ground("%s/%s/inv-init#loop%d.link[%s is %s(%s)]@L%d" % (self.prop, ctx.tag, k, v_, fname, a_, lineno), "inv-init", ctx.tag,
+                                bool(spec.get("_links_init", {}).get((fname, a_, v_), False)), backend="symbolic-exec")
+                s0.ghost.setdefault("calls:" + fname, []).append((s0.env.get(a_),))
+                s0.ghost.setdefault("vals:" + fname, []).append(s0.env.get(v_))
+            # --- body path
+            sb = s0.fork()
+            sb.assume(idx < stop)
+            self.reg.cover("%s/%s/cover#loop%d-body-reachable@L%d" % (self.prop, ctx.tag, k, lineno), ctx.tag, self.global_axioms + sb.pc, lineno)
+            if self.feasible(sb):
+                sb.env[node.target.id] = idx
+                for s2, oc in self.exec_block(node.body, sb, ctx):
+                    if oc is None or oc[0] == "continue":
+                        tr = ".".join("%d%s" % (ln, "T" if b else "F") for ln, b in s2.trace[len(s0.trace):])
+                        s2.env["iter_index"] = idx + 1
+                        self.prove_many(s2, ctx, [(self.eval_spec(inv, s2, ctx), "inv-pres", "inv-pres#loop%d.%d[%s]" % (k, i, tr), lineno) for i, inv in enumerate(invs)])
+                        for (fname, a_, v_) in links:
+                            self.reg.ground("%s/%s/inv-pres#loop%d.link[%s is %s(%s)][%s]" % (self.prop, ctx.tag, k, v_, fname, a_, tr), "inv-pres", ctx.tag,
+                                            self.linked(s2, fname, s2.env.get(a_), s2.env.get(v_)), backend="symbolic-exec")
+                    elif oc[0] == "break":
+                        out.append((s2, None))
+                    else:
+                        out.append((s2, oc))
+            # --- exhausted
+            s0.assume(idx >= stop)
+            if self.feasible(s0):
+                if node.orelse:
+                    out.extend(self.exec_block(node.orelse, s0, ctx))
+                else:
+                    out.append((s0, None))
+        return out
 
     def s_While(self, node, st, ctx):
         k = self.loop_ordinal(node, ctx)
